@@ -466,6 +466,11 @@ TIES = {
     'IsNull': dict(props=['C18'], gen=['IsNullOverloads', 'IsNullRedirect'],
                    theorems=['is_null_table_tie', 'is_null_sem', 'matcher_is_not_null', 'array_is_not_null', 'reference_wrapper_unwrapped'],
                    cxx='the overload set of is_null / is_null_redirect (mock.hpp): the null test in front of every printed value'),
+    'ClausePlumbing': dict(props=['C08'], gen=['WithAction', 'SideeffectAction', 'HandleReturnAction', 'HandleThrowAction', 'SetReturn',
+                                                'AddCondition', 'AddSideEffect'],
+                           theorems=['clause_plumbing_tie', 'applyClause_eq', 'clauses_registered', 'statement_registers'],
+                           cxx='with::action, sideeffect::action, handle_return::action, handle_throw::action (run-time parts), '
+                               'call_matcher::set_return (mock.hpp): each clause makes one call into the matcher'),
     'ReturnPath': dict(props=['C08', 'C17'], gen=['ReturnHandlerCall', 'TraceReturnVoid', 'TraceReturnValue', 'ThrowHandlerCall'],
                        theorems=['return_path_tie', 'return_evaluated_once', 'throw_path_tie', 'throw_evaluated_once'],
                        cxx='return_handler_t::call and the two trace_return<Ret> helpers (mock.hpp): the RETURN functor is evaluated once'),
